@@ -229,8 +229,11 @@ func c03Explore(src *choice.Src) *core.Result {
 	want := tr.Path(n, t)
 	if ok {
 		switch {
+		case st.fired && err == nil && !eqHashes(rp, want):
+			// a failed read may be retried or worked around; what may not happen is a wrong proof
+			res.Fail("C03", "hashreader-fault-surfaces", "ProveRecord returned a wrong proof after its HashReader failed or returned the wrong number of hashes", "ProveRecord(%d, %d): store fault %d was delivered, no error, and the result is not the audit path%s", t, n, st.fault, firstDiff(rp, want))
 		case st.fired && err == nil:
-			res.Fail("C03", "hashreader-fault-surfaces", "ProveRecord succeeded although its HashReader failed or returned the wrong number of hashes", "ProveRecord(%d, %d): store fault %d was delivered, no error", t, n, st.fault)
+			res.Probes["prove-correct-despite-reader-fault"]++
 		case !st.fired && err != nil:
 			res.Fail("C03", "prove-complete", "ProveRecord failed on an honest store", "ProveRecord(%d, %d): %v", t, n, err)
 		case err == nil && !eqHashes(rp, want):
@@ -292,8 +295,10 @@ func c03Explore(src *choice.Src) *core.Result {
 	want2 := tr.Proof(n2, t2)
 	if ok {
 		switch {
+		case st2.fired && err == nil && !eqHashes(tp, want2):
+			res.Fail("C03", "hashreader-fault-surfaces", "ProveTree returned a wrong proof after its HashReader failed or returned the wrong number of hashes", "ProveTree(%d, %d): store fault %d was delivered, no error, and the result is not the consistency proof%s", t2, n2, st2.fault, firstDiff(tp, want2))
 		case st2.fired && err == nil:
-			res.Fail("C03", "hashreader-fault-surfaces", "ProveTree succeeded although its HashReader failed or returned the wrong number of hashes", "ProveTree(%d, %d): store fault %d was delivered, no error", t2, n2, st2.fault)
+			res.Probes["prove-correct-despite-reader-fault"]++
 		case !st2.fired && err != nil:
 			res.Fail("C03", "prove-complete", "ProveTree failed on an honest store", "ProveTree(%d, %d): %v", t2, n2, err)
 		case err == nil && !eqHashes(tp, want2):
